@@ -23,7 +23,11 @@
    Functions mirror, line by line: PauliTerm._multiply_by_operator (through the generated tables
    Gen/PauliTablesGen.v), PauliTerm.__mul__, PauliSum.simplify, PauliSum.__mul__/__rmul__/__add__,
    _efficient_exponentiation, and the dispatch of the binary operators on the three operand kinds
-   ([py_add] ... [py_eq]).  An operation that raises is [None]. *)
+   ([py_add] ... [py_eq]).  An operation that raises is [None].
+
+   Theorems: Pauli/TablesProofs.v (tables = 2x2 matrix products), Pauli/DenProofs.v (term product),
+   Pauli/SumProofs.v (invariants, simplify), Pauli/OpsProofs.v (operators on operands, ==),
+   Pauli/EqCompleteProofs.v (linear independence of Pauli strings); summary in Props/C03.v. *)
 Require Import Coq.ZArith.ZArith Coq.Lists.List Coq.Strings.String Coq.Bool.Bool Coq.Arith.Arith
   Coq.QArith.QArith Coq.QArith.Qcanon.
 Require Import OQ.Base.Ring OQ.Gen.PauliTablesGen.
@@ -62,7 +66,7 @@ Fixpoint set_op (q : nat) (a : letter) (l : ops) : ops :=
                    else (k, b) :: set_op q a r
   end.
 
-(* del _ops[q] *)
+(* del _ops[q] (every entry with key q: the same thing on a dictionary, and total on any list) *)
 Fixpoint del_op (q : nat) (l : ops) : ops :=
   match l with
   | [] => []
@@ -127,7 +131,7 @@ Section Algebra.
   (* COEFF_MAP[a + b] *)
   Definition coeff_lookup (a b : letter) : option K :=
     dict_get String.eqb (letter_str a ++ letter_str b)%string (COEFF_MAP K).
-  (* A missing entry would be a KeyError; AlgebraProofs.tables_total shows that every ordered pair of
+  (* A missing entry would be a KeyError; TablesProofs.tables_total shows that every ordered pair of
      distinct letters has an entry in both tables, so the defaults below are never used. *)
   Definition op_tab (a b : letter) : letter := match op_lookup a b with Some l => l | None => a end.
   Definition coeff_tab (a b : letter) : K := match coeff_lookup a b with Some c => c | None => c0 end.
